@@ -17,7 +17,7 @@ from ..envs import django_env, sqla_env, visitors as shipped
 from ..gen import terms as T
 from ..gen.printer import to_text
 from ..mon import contracts
-from ..ref import sql_lex
+from ..ref import sql_lex, sql_parse, sql_value
 
 RULE = ("matrix: node kind (11 literal kinds, typed identifier, unary minus, to-one path, "
         "any()/any(x:p)/all(x:p) lambdas, named-parameter call, every built-in function, "
@@ -57,6 +57,8 @@ def kinds():
     out.append(("lit-time", "time", lambda n: T.lit("time", "11:%02d:07" % (n % 60))))
     out.append(("lit-datetime", "datetime", lambda n: T.lit("datetime", "2021-03-04T05:%02d:07" % (n % 60))))
     out.append(("lit-duration", "duration", lambda n: T.lit("duration", "P%dD" % (3 + n % 20))))
+    for i, d in enumerate(["P3DT3H", "-P1DT2H30M", "P1Y1M1DT1H1M1S", "-P2Y2M", "PT5M5S", "P1DT1H"]):
+        out.append(("lit-duration-multi%d" % i, "duration", lambda n, d=d: T.lit("duration", d)))
     out.append(("lit-geo", "geo", lambda n: T.lit("geo", "POINT(%d 2)" % n)))
     out.append(("ident-int", "int", lambda n: I("a")))
     out.append(("ident-str", "str", lambda n: I("s")))
@@ -458,6 +460,22 @@ def judge(ctx, kname, pos, t, backend, rel, unknown_field, check_leaves=True, ro
             return
         miss = missing_in_text(t, res, lower_ids=(backend == "sql-athena"), lambda_vars=())
         case["output"] = res
+        durs = [n for n in T.walk(t) if n[0] == "lit" and n[1] == "duration"]
+        if backend.startswith("sql-") and len(durs) == 1:
+            # the interval expression in the SQL must be worth what the literal denotes
+            try:
+                tree, toks = sql_parse.parse(res)
+                vals = [v for _, v in sql_value.maximal_interval_subtrees(tree, toks)]
+            except Exception:
+                vals = None
+            want = sql_value.duration_value(durs[0][2])
+            if vals is not None and want is not None:
+                ctx.count("durations_evaluated")
+                if len(vals) != 1 or vals[0] != want:
+                    ctx.fail(case, "a component of the duration literal is missing / altered in the "
+                             "translation", expected=str(want), observed=str(vals), keys=keys,
+                             cls=cell, sig=["duration-value", backend])
+                    return
     elif backend == "django":
         q, sql, ann = res
         found = []
